@@ -31,7 +31,7 @@ RULE = (
     "universes and 2-3 free law sets plus None, starting from every initial configuration "
     "(universe built with default laws or given one of the law sets, possibly one already "
     "given to another universe); bounded-exhaustive over all sequences up to the stated "
-    "length for the 2x2 pool, Hypothesis beyond it (there also: assignments in the item spelling obj['laws'] = x, universes that are linked as vertices of an outer graph, assignments issued 300 times in a row, re-attaching the default law set a universe was born with (kept by the caller) to any universe, and a chain of universes nested 3500 levels deep inside the first universe).  After every step the bijection "
+    "length for the 2x2 pool, Hypothesis beyond it (there also: assignments in the item spelling obj['laws'] = x, universes that are linked as vertices of an outer graph, assignments issued 300 times in a row, histories in which nothing is read before the first assignment, re-attaching the default law set a universe was born with (kept by the caller) to any universe, and a chain of universes nested 3500 levels deep inside the first universe).  After every step the bijection "
     "`u.laws is L <=> L.applies_to is u` is checked for ALL pairs including displaced "
     "default law sets.  At the end of every history two unrelated universes are constructed and the bijection is checked again over everything.  Plus a second law set built from the same (meanwhile modified) whitelist dictionary object, and constructor read-back/immutability cases for the rule "
     "attributes.  Non-trivial = some step moves a law set that is in use elsewhere, or "
